@@ -47,14 +47,18 @@ def action_panic_obligation(run):
         An = mirror.Analysis(replay.generated_parser(), prog)
         viol, nq = An.constants()
         reach = {k: v for k, v in viol.items() if k.startswith('panic-arm')}
-        seen = len(An.E.panics)
+        seen = len(set(w for _pc, w in An.E.panics))
+        sites = sorted(set(sites))
     except (mir.Unsupported, RuntimeError) as e:
         run.inconclusive(title, 'A', str(e)); return
     if An.unsupported:
         run.inconclusive(title, 'A', 'action outside the evaluator: ' + An.unsupported[0]); return
     if reach:
         w = list(reach.values())[0][0]
-        text = 'package p; interface I { void f(%s int a); }' % (w.get('word', 'in').strip('"'))
+        if w.get('kind') == 'transact-code':
+            text = 'package p; interface I { void f() = %s; }' % w.get('word', '0')
+        else:
+            text = 'package p; interface I { void f(%s int a); }' % (w.get('word', 'in').strip('"'))
         r = replay.project({'a.aidl': text})
         run.violated(title, 'A', 'action-panic', {'sites': sites[:4], 'solver': w, 'native': str(r.get('panic'))[:120]}, bool(r.get('panic')), queries=nq, detail='a panic arm of a grammar action is reachable')
     elif len(sites) != seen:
